@@ -195,6 +195,9 @@ func scalarSort(t types.Type) (Sort, bool) {
 }
 
 func zeroValue(t types.Type) Value {
+	if isReflectValueType(t) {
+		return Value{} // the zero reflect.Value: opaque, invalid
+	}
 	switch u := t.Underlying().(type) {
 	case *types.Basic:
 		if u.Info()&types.IsString != 0 {
@@ -228,6 +231,9 @@ func zeroValue(t types.Type) Value {
 }
 
 func newCell(t types.Type, epoch int32) *Cell {
+	if isReflectValueType(t) {
+		return &Cell{epoch: epoch, typ: t}
+	}
 	switch u := t.Underlying().(type) {
 	case *types.Struct:
 		c := &Cell{agg: true, epoch: epoch, typ: t, sub: make([]*Cell, u.NumFields())}
